@@ -74,6 +74,125 @@ CLAIMED.update({
             "DESIGN.md 6/C14"),
 })
 
+
+PIPE = ("The whole remapping pipeline (lookup, labelling, trim_large_overhangs, found / found-more-than-once bookkeeping, the "
+        "overhang resolver rounds, cut_fragments + QC, haplotig/unloc renaming, re-adding missing contigs, fusion by (tag, "
+        "haplotype, name), ChrNamer, smart sort, junction statistics) is one executable Gallina function `remap`; on every run "
+        "Coq compares its full output (assemblies, scaffold names/tags/haplotypes/ranks/original names/rows, cuts, breaks, "
+        "joins, per-assembly stats, or error) with BuildAssembly on several hundred generated (input, Pretext) pairs plus the "
+        "repository's specimens. ")
+CLAIMED.update({
+    "C01": ("Coq theorem C01_conservation, for ALL input assemblies with well-formed pairwise-distinct contigs and ALL Pretext "
+            "assemblies, texel sizes, prefixes and tags, no size bound: if `remap` returns Ok then for every contig name and base "
+            "the number of output fragments covering it equals the number of input contigs covering it, and every output "
+            "fragment is a sub-interval of an input contig of that name (proved by an invariant carried through lookups, every "
+            "resolver round, the cuts with their QC (qc_partition), the re-adding of unfound contigs and a permutation argument "
+            "for fusing/naming/sorting). " + PIPE + "Oracle: per-base coverage sweep.",
+            NOTE + "Python object identity is modelled by row ids; dict/set order by insertion-ordered lists.",
+            "Coq proof (pipeline invariant, ~4000 lines) + in-Coq correspondence of the whole pipeline + coverage oracle",
+            "DESIGN.md 6/C01, 13"),
+    "C02": ("PARTIAL proof: the full statement (affine core map within 3 error lengths, orientation, Pretext order, exact deep "
+            "cuts, completion on every PretextView-model script) is decided on each run by an oracle over generated edit scripts "
+            "(cut sets on the texel grid, pieces >= 2 texels, any permutation/orientation/grouping, floor/ceil texel counts, "
+            "sub-texel scaffolds, texel from 1 bp, forward and reverse contigs) and by the correspondence of the pipeline "
+            "model; Coq theorems cover the ingredients (C12 lookup = brute force, C18 trim/discard invariant incl. strand-aware "
+            "trim_fragment, C01 conservation, the refutation of the pinned commit's keep-flag order for reverse-strand contigs, "
+            "repaired by a fix: commit). The global composition over all results is not proved. " + PIPE,
+            NOTE + "The PretextView model (texel grid, floor coordinates) is the generator's reading of PretextView.",
+            "in-Coq correspondence of the pipeline + affine-core oracle; Coq lemmas for the ingredients (partial)",
+            "DESIGN.md 6/C02, 13"),
+    "C03": ("Coq theorems, unbounded: for every file/index through which the named records can be read (good_access, proved for "
+            "every well-formed rendered FASTA in C04), every buffer >= 1 and line length >= 1, write_scaffold = '>'name LF + "
+            "wrap_L(concatenated row bytes: interval, reverse complement for strand -1, gap-length gap characters); the wrapped "
+            "body has lines of exactly L, a last line of 1..L, none empty; write_assembly concatenates in scaffold order; residues "
+            "written = sum of row lengths = last AGP object end (C06). " + CORR + "Naive re-implementation from the record strings as oracle.",
+            NOTE + "End-to-end through the CLI is exercised under C16/C17.",
+            "Coq proof (wrap state machine, chunk algebra) + in-Coq correspondence of FastaStream output + naive oracle",
+            "DESIGN.md 6/C03"),
+    "C04": ("Coq theorems, unbounded: for every well-formed FASTA layout (any width >= 1, LF/CRLF, final newline present or "
+            "absent, descriptions, any residues) and every buffer size, index_fasta = (faidx quintuples, run-length tiling) "
+            "(C04_index_spec); random access through that index returns residues s..e for all 1<=s<=e<=n (C04_random_access); "
+            "duplicate names and empty files are rejected; streaming back follows from C03. The pinned commit's scanner is "
+            "refuted (last residue dropped without final newline; fixed). " + CORR,
+            NOTE, "Coq proof (line-scanner fold vs render, seek arithmetic) + in-Coq correspondence (exhaustive tiny layouts + random + malformed stream)",
+            "DESIGN.md 6/C04"),
+    "C05": ("Coq theorems for every assembly satisfying the stated well-formedness (agp_wf / tpf_wf, satisfiable, examples "
+            "proved): parse_agp(format_agp a) = a, canonical text reproduced byte for byte, the same for TPF, AGP->TPF->parse = "
+            "drop_tags, and for EVERY text: a successful parse has exactly one row per non-blank non-comment line. " + CORR +
+            "Line-level corruptions are compared with the model (Ok/Err and value).",
+            NOTE + "Text iteration as with io.StringIO (LF-terminated lines); ASCII; int() as in Py/Dec.v.",
+            "Coq proof (split/join/strip lemmas, fold invariant) + in-Coq correspondence on generated and corrupted texts",
+            "DESIGN.md 6/C05"),
+    "C06": ("Coq theorems for EVERY assembly (hence every remapped or FASTA-derived one): the lines format_agp writes are the "
+            "decimal rendering of a numeric view that tiles each object from 1, numbers parts 1,2,3.., has object span = "
+            "component span on W lines and = stated length on U lines, ends at the scaffold length, and carries U/type/yes; "
+            "format_agp is total on valid strands. " + CORR + "Independent AGP column checker as oracle, also on asm-format and on the .agp cache of indexed FASTA files.",
+            NOTE, "Coq proof (induction over rows) + in-Coq correspondence + AGP column checker", "DESIGN.md 6/C06"),
+    "C07": ("PARTIAL proof: decided on each run by the correspondence of the pipeline model and an oracle that walks every output "
+            "scaffold against the input adjacencies (no direct adjacency that was not one in the input; no terminal gap; on "
+            "PretextView-model maps every gap is the input gap of the same neighbours or the join gap). Coq: C18 (no terminal "
+            "gap in any overlap result after any edit sequence), C12 (lookups strip terminal gaps), C01 (what is re-added). The "
+            "pinned commit's gapless left-over join is reproduced, fixed, and kept in the corpus. " + PIPE,
+            NOTE, "in-Coq correspondence of the pipeline + adjacency oracle; Coq lemmas for the ingredients (partial)", "DESIGN.md 6/C07, 13"),
+    "C08": ("PARTIAL proof: decided on each run by the correspondence of the pipeline model and an oracle on null maps (every "
+            "scaffold whole, forward, untagged or all painted; all texel sizes; floor/ceil texel counts within one texel; "
+            "sub-texel scaffolds absent): same names, rows, order; only the primary assembly; zero cuts/breaks/joins; painted: "
+            "prefix + rank by size. Coq ingredients: C12, C18, C01, C11 (reversal/identity of junction sets), C20 (order). " + PIPE,
+            NOTE, "in-Coq correspondence of the pipeline + identity oracle (partial proof)", "DESIGN.md 6/C08, 13"),
+    "C09": ("Coq theorems: label_tag_spec (FalseDuplicate > Haplotig > Contaminant incl. Target mode > none; haplotype; rank 3), "
+            "Target mode monotone, labelling fails only for Unloc in an unpainted scaffold, and routing: with the repaired "
+            "fusion key every piece with rows ends as a contiguous block in the fused scaffold of its own (tag, haplotype, name), "
+            "which goes to the assembly keyed by that tag, else haplotype, else primary -- never a curated assembly when tagged; "
+            "the pinned commit's key is refuted (fixed). " + PIPE + "Oracle follows the core contigs of every piece into the output dict.",
+            NOTE + "File-name stems (name_assemblies) are exercised through the CLI in C16/C17 only.",
+            "Coq proof (case analysis, fold invariant over the fusion) + in-Coq correspondence + routing oracle", "DESIGN.md 6/C09"),
+    "C10": ("Coq theorems: rename_by_size = same names, objects in non-increasing length, stable; H_n / _unloc_n handed out "
+            "without holes; chromosome groups numbered 1..n by non-increasing length (stable); single-haplotype grouping total "
+            "and renaming names only; effect of naming on <Pretext name><suffix>; A,B,.. suffixes; output order total (C20) with "
+            "unloc-between. Name uniqueness over a whole run, multi-haplotype grouping and the CSV are decided by the "
+            "correspondence of the pipeline model and the oracle. One known finding (orphan unloc listed as localised). " + PIPE,
+            NOTE, "Coq proof (sorting lemmas, fold invariants) + in-Coq correspondence + naming/CSV oracle (partial for uniqueness / multi-haplotype)",
+            "DESIGN.md 6/C10, 13"),
+    "C11": ("Coq theorems: the canonical junction identifies the unordered pair of facing contig ends (with sides, 1-bp contigs "
+            "included); reading a junction from the other side gives the same canonical junction; the junction set of a scaffold "
+            "equals that of its reverse; strand 0 is an error; list-based union/difference/intersection have their set meaning; "
+            "cuts = output fragments - input contigs for every completed run (from the C01 invariant); the pinned commit's "
+            "encoding is refuted (fixed). " + PIPE + "Oracle recounts adjacencies independently.",
+            NOTE + "*.info.yaml is exercised through the CLI in C16/C17 only.",
+            "Coq proof (case analysis on strands, order lemmas, counting invariant) + in-Coq correspondence + adjacency oracle", "DESIGN.md 6/C11"),
+    "C13": ("Coq theorems: index_fasta gives the same index and assembly for EVERY byte string and ALL buffer sizes; the sequence "
+            "buffer never exceeds buffer + one line (ghost peak); forward/reverse/gap iterators deliver ceil(len/buf) chunks of "
+            "at most buf residues whose concatenation is the interval / its reverse complement / N^len; the consumer writes the "
+            "same bytes for any chunking; write_scaffold is buffer-size independent. " + CORR +
+            "Runtime residue (measured, not proved): tracemalloc peak while indexing / streaming a 300 kb (quick) or 2 Mb record, fragment and gap with a 1000-residue buffer.",
+            NOTE + "Real allocator behaviour is outside the model.",
+            "Coq proof (flush-point independence, chunk arithmetic) + in-Coq correspondence + chunk-size / tracemalloc oracle", "DESIGN.md 6/C13"),
+    "C15": ("Transition-system model of the cache protocol (stat/exists/open/read/write-to-temporary/replace per process, logical "
+            "time stamps, crashes, any number of processes). Each run replays real FastaIndex.auto_load() executions -- crash at "
+            "EVERY file operation of an indexing run, random histories, every single pre-emption of two racing processes and "
+            "random 2-3 process schedules -- under a deterministic shim, feeds the observed operation trace to the model in Coq "
+            "and compares each process's outcome; oracle: a completed auto-load must equal a fresh index of the current content. "
+            "Coq: the pinned commit's in-place rewrite is refuted (race witness); the safety theorems are being added "
+            "(Proofs/CacheFS.v). Fixed in /repo by atomic cache writes.",
+            NOTE + "Runtime residue: kernel scheduling, rename atomicity and mtime granularity are as modelled (logical stamps, thread-simulated processes).",
+            "in-Coq trace validation of real executions (crash/schedule enumeration) + freshness oracle; Coq safety proof of the protocol model", "DESIGN.md 6/C15"),
+    "C16": ("Coq theorems about the open protocol: with --no-clobber every pre-existing file keeps its bytes, the run fails "
+            "exactly at the first output (in open order) that pre-exists and names it, earlier outputs were newly created, later "
+            "ones untouched, fails iff some output pre-exists; with --clobber it succeeds and every output holds what the run "
+            "writes. Each run drives the real CLI in process over {FASTA, AGP, TPF} x log on/off x single/multi-assembly for all "
+            "(<= 6 outputs) or sampled subsets of pre-existing files and lets Coq compare exit status, named file and the digest "
+            "of every file with the model's prediction.",
+            NOTE + "That Python's mode 'x' is an atomic exclusive create is trusted; the open order is taken from a baseline run.",
+            "Coq proof (induction over the open list) + in-Coq correspondence of CLI runs over subsets", "DESIGN.md 6/C16"),
+    "C17": ("Formal part (Coq): make_scaffold_name is invariant under permutation of its tag set (the only place a set is "
+            "iterated), indexing is buffer-size independent (C13), AGP round trip (C05) for the cache; the model is a function, "
+            "so there is no hidden state. Runtime part (partial): every tag set in EVERY order against the model and each other; "
+            "generated (FASTA, Pretext) pairs through the CLI in fresh processes under several PYTHONHASHSEED values, two "
+            "working directories, cold/warm cache, FASTA/AGP/TPF input, and after other in-process invocations, all output "
+            "files byte-identical. One defect found and fixed (empty tag made the outcome depend on the hash seed).",
+            NOTE + "Hash seed, interpreter-global state and cwd are runtime residue explored by sampling.",
+            "Coq proof (permutation invariance) + in-Coq correspondence over all tag orders + CLI re-runs under varied configuration", "DESIGN.md 6/C17"),
+})
 NOT_YET = "check not built yet in this session (see DESIGN.md section 6 for the planned theorem and correspondence)"
 
 
